@@ -4,9 +4,10 @@ iteration, limits, stack discipline).  Correspondence: the Go driver (overlay ro
 internal/zz_verif/membuf) runs identical generated op sequences on the ART and the RBT MemBuffer, compares
 them pairwise in-process after every op and prints every result; the extracted models L0 and L1
 (ocaml/membuf) recompute every result.  Oracles on the implementation: ART≡RBT (every op + full dump after
-every mutator), impl ≡ L0 on every sequence that does not revert to a tainted checkpoint, iteration strictly
+every mutator), impl ≡ L0 on every sequence (reverts to any live checkpoint included), iteration strictly
 ordered and inside its bounds, handle round trip, snapshot API variants agree (incl. the batched reverse scan over the empty key, F25), empty
-non-nil bounds = unbounded (F26), every call terminates (watchdog), stale iterators/snapshots fail loudly.  KNOWN FINDING F03b is classified by a precise predicate on the minimised sequence."""
+non-nil bounds = unbounded (F26), every call terminates (watchdog), stale iterators/snapshots fail loudly.
+F03/F03b (fixed by 6b4091a) stays as directed regression sequences d-f03b / d-f03b-more."""
 import os, time, json, subprocess, hashlib
 import vlib
 from vlib import Verdict
@@ -14,7 +15,6 @@ from vlib import Verdict
 PID = "C08"
 PROPS = [("theories/MemBuf/Props.v", "MemBuf.Props")]
 AREAS = ["theories/MemBuf"]
-F03B = "revert-to-checkpoint/same-length-overwrite-after-checkpoint"
 MUTATORS = {"set", "flags", "staging", "release", "cleanup", "cp", "revert", "limits"}
 MAX_MINIMISE = 4
 
@@ -134,12 +134,10 @@ def kind_of(s):
     """failure kind of one sequence result"""
     if s["pf"]:
         return "oracle:" + s["pf"][0][0]
-    if any(not haz for (_, haz, *_r) in s["l0"]):
-        return "l0-without-hazard"
+    if s["l0"]:
+        return "impl-differs-from-reference-L0"
     if s["mism"]:
         return "l1-mismatch"
-    if s["l0"]:
-        return "l0-after-hazard"
     return None
 
 
@@ -178,24 +176,6 @@ def minimise(runner, ops, kind):
     return ops, best, True
 
 
-def f03b_shape(s):
-    """the precise predicate: the L1 model agrees with the code everywhere, no oracle failed, and the first
-    disagreement with L0 comes after  checkpoint -> in-place same-length overwrite of an entry at or below
-    that checkpoint (ghost 'taint') -> revert to that tainted checkpoint (ghost 'hazard')."""
-    if s["mism"] or s["pf"] or not s["l0"]:
-        return False
-    if any(not haz for (_, haz, *_r) in s["l0"]):
-        return False
-    first = min(i for (i, *_r) in s["l0"])
-    cps = [i for (i, w) in s["notes"] if w.startswith("cp ")]
-    taints = [i for (i, w) in s["notes"] if w.startswith("taint set ")]
-    hazards = [i for (i, w) in s["notes"] if w.startswith("hazard revert ")]
-    for h in hazards:
-        if h < first and any(c < t < h for c in cps for t in taints):
-            return True
-    return False
-
-
 def main(tier, replay):
     """never exits non-zero silently: an exception inside the check is printed and reported as a violation"""
     try:
@@ -228,7 +208,6 @@ def _main(tier, replay):
     okm, modelrun = vlib.build_model("MemBuf")
     okg, exe = vlib.go_build("membuf", roots=("ov_c08",))
     stats, counts, pc, samples = {}, {}, {}, []
-    known_n = 0
     if not (okg and okm):
         v.violation({"kind": "harness-build", "correspondence": "MemBuf driver/model build against the current tree",
                      "error": (exe if not okg else modelrun)}, has_input=False)
@@ -256,36 +235,11 @@ def _main(tier, replay):
                 s = seqs.get(cid, {"mism": [], "l0": [], "notes": []})
                 s["pf"] = pf.get(cid, [])
                 results[cid] = s
-            minimised = 0
             shown_kinds = {}
             for cid in sorted(results, key=lambda c: len(opsof.get(c, []))):
                 s = results[cid]
                 kind = kind_of(s)
                 if kind is None:
-                    continue
-                if kind == "l0-after-hazard":
-                    # candidate for the known finding F03b: classify by the predicate; minimise a few
-                    if minimised < MAX_MINIMISE:
-                        minimised += 1
-                        first = min(i for (i, *_r) in s["l0"])
-                        mops, ms, ok = minimise(runner, opsof[cid][:first + 1], kind)
-                        shape = ok and ms is not None and f03b_shape(ms)
-                        obj = {"kind": "reference-model-divergence", "sequence": cid,
-                               "finding_class": F03B if shape else "unclassified-l0-divergence",
-                               "case": ["\t".join(o) for o in mops], "mode": "auto",
-                               "l0_diffs": [list(x) for x in (ms["l0"] if ms else s["l0"])[:6]],
-                               "ghost_notes": (ms["notes"] if ms else s["notes"])[:12],
-                               "what": "ART and RBT agree with each other and with L1, both disagree with the reference L0 after reverting to a checkpoint below which a value was overwritten in place"}
-                        v.violation(obj)
-                        known_n += 1 if shape else 0
-                    else:
-                        shape = f03b_shape(s)
-                        known_n += 1 if shape else 0
-                        if not shape:
-                            first = min(i for (i, *_r) in s["l0"])
-                            v.violation({"kind": "reference-model-divergence", "sequence": cid, "finding_class": "unclassified-l0-divergence",
-                                         "case": ["\t".join(o) for o in opsof[cid][:first + 1]], "mode": "exact",
-                                         "l0_diffs": [list(x) for x in s["l0"][:6]], "ghost_notes": s["notes"][:12]})
                     continue
                 if shown_kinds.get(kind, 0) >= 2:
                     shown_kinds[kind] = shown_kinds[kind] + 1
@@ -305,8 +259,8 @@ def _main(tier, replay):
                 if kind.startswith("oracle:"):
                     obj["what"] = "property oracle %s failed on the implementation" % kind[7:]
                     v.violation(obj)
-                elif kind == "l0-without-hazard":
-                    obj["what"] = "the implementation disagrees with the reference model L0 on a sequence without any revert to a tainted checkpoint (C08: ART ≡ RBT ≡ reference)"
+                elif kind == "impl-differs-from-reference-L0":
+                    obj["what"] = "the implementation disagrees with the reference model L0 (C08: ART ≡ RBT ≡ reference)"
                     v.violation(obj)
                 else:
                     obj["correspondence"] = "L1 (VLog) vs ART/RBT"
@@ -321,10 +275,9 @@ def _main(tier, replay):
                input_distribution={k: c for k, c in counts.items() if k.startswith("class:")},
                op_distribution={k: c for k, c in counts.items() if k.startswith("op:")},
                oracle_evaluations=pc, model_L1_mismatches=stats.get("mismatches", 0),
-               L0_divergences=stats.get("l0diffs", 0), sequences_with_tainted_revert=stats.get("hazard_seqs", 0),
-               sequences_matching_known_F03b=known_n)
+               L0_divergences=stats.get("l0diffs", 0))
     rc = v.finish()
     vlib.write_evidence(PID, cov, t0, violations=len(v.violations), level="proof",
                         assumptions=["bytes are 0..255; Go's bytes.Compare = lex_cmp", "single-threaded use of the buffer (the RWMutex wrappers are not exercised concurrently)",
-                                     "checkpoint tokens are used inside the staging level they were taken in (the driver never reverts below the current stage)"])
+                                     "only live checkpoint tokens are reverted to: not below the current stage, not cut off by an earlier revert/cleanup (tokens of a released stage stay live)"])
     return rc
